@@ -1,3 +1,25 @@
-add('C12','exploration','runtime monitoring: generated round trips + decoder totality monitor (recover() around every call) over the real codec functions',
+RM='runtime monitoring: '
+add('C10','exploration',RM+'generated values of generated struct types through the real Encode/Decode/DiffPoints/MergePoints with a deep-equality oracle',
+    'Random configuration struct types (reflect.StructOf over every supported field kind, plus a static type through the typed API) and random values inside the documented limits are pushed through Encode->Decode and Diff->Merge and compared with an independent deep-equality oracle. Held on the cases generated; no proof.',
+    'reflect.StructOf types stand for hand-written client configs; equality treats nil and empty slices/maps alike; after Diff/Merge floats compare numerically (+0==-0).','DESIGN.md 2/C10')
+add('C11','exploration',RM+'hostile point lists into Decode/MergePoints/MergeEdgePoints under a panic monitor, plus an unchanged-target oracle for undeclared types',
+    'Every supported field kind x arbitrary prior values x point lists over hostile keys/values/tombstones is decoded with recover() as the crash monitor; lists of undeclared types must leave the target bit-identical. Held on the inputs generated.',
+    'Go panics are the crash signal; only exported, tagged fields of supported kinds are generated.','DESIGN.md 2/C11')
+add('C12','exploration',RM+'generated round trips + decoder totality monitor (recover() around every call) over the real codec functions',
     'Every generated point/node is pushed through the real wire codecs and compared field by field (value by bits); every decoder and subject parser is fed random and mutated byte strings with a panic monitor. Held on the inputs generated, not a proof.',
     'Go runtime panics are the crash signal; generators cover wire-range times and int32 tombstones only; protobuf library trusted.','DESIGN.md 2/C12')
+add('C14','exploration',RM+'dense time grids through the real activeForTime against an independent day-D reference definition, in five time zones',
+    'For each sampled schedule config every minute of nine days plus the instants around every window edge are evaluated in five zones against the property\'s own definition. Exhaustive per config over that grid, sampled over configs.',
+    'Uses the verif-tag accessor client.VerifScheduleActive (wraps the unexported schedule type); only well-formed HH:MM / dates.','DESIGN.md 2/C14')
+add('C16','exploration',RM+'scripted io.ReadWriteCloser feeding the real CobsWrapper every segmentation / damage; exact-sequence and prefix/suffix oracles',
+    'Frame sequences written through CobsWrapper.Write are replayed through CobsWrapper.Read under exhaustive one- and two-cut segmentations (short streams), random multi-cuts, and every single damage event; the oracle demands the exact frame sequence, or exact prefix and suffix around damage. Held on the executions run.',
+    'Zero-length frames excluded (indistinguishable from a (0,nil) read); maximum frame derived from maxMessageLength.','DESIGN.md 2/C16')
+add('C17','exploration',RM+'exhaustive 1-bit/2-bit/burst error injection into real packets with SerialDecode as the system under observation',
+    'Packets over all documented subjects are round-tripped field by field, then every 1-bit, every 2-bit and every <=16-bit burst error (UART bit order; exhaustive interiors to length 10, sampled above) is applied and SerialDecode must reject or return identical content. Exhaustive per packet within those classes, sampled over packets.',
+    'log packets excluded by design; burst = consecutive bits LSB-first per byte (UART order).','DESIGN.md 2/C17')
+add('C18','exploration',RM+'stateful request sequences into the real ProcessRequest vs an executable Modbus-spec reference server; panic and hang monitors',
+    'Structured and raw random requests are replayed against seven register maps; response, error return and register file are compared with a reference server written from the Modbus specification, with stated tolerances. Held on the requests generated.',
+    'Reference model is the trusted base (Modbus Application Protocol v1.1b3 + the repo\'s documented register file).','DESIGN.md 2/C18')
+add('C19','exploration',RM+'real Client<->Server.Listen over in-memory RTU and TCP links with a man-in-the-middle corruptor; value/count oracle from the server register file',
+    'Every client method is driven against a live server over both framings for addresses, counts, unit ids and 70000 consecutive TCP transactions; returned values and counts are compared with the server\'s registers; damaged frames must be rejected; conversions checked bit-exact (2^16 exhaustive, 32-bit sampled).',
+    'In-memory packet-preserving duplex stands for a serial line behind respreader; net.Pipe stands for TCP.','DESIGN.md 2/C19')
